@@ -231,6 +231,55 @@ def _eligible_comb(F, caller, blocks, t, stack):
     return spec, cl, agg
 
 
+def _eligible_closure_call(F, caller, blocks, t, stack):
+    """`let rank = |..| ..; … rank(a, b)`: a direct call of a closure written in this body (resolved callee = the closure body,
+    arguments handed over as one tuple).  Returns (closure body, closure aggregate, argument tuple aggregate) or None."""
+    nm = t.get("ngen") or t.get("gen") or ""
+    if not nm.endswith(("ops::function::Fn::call", "ops::function::FnMut::call_mut", "ops::function::FnOnce::call_once")):
+        return None
+    if t.get("mac") or len(t.get("args") or []) != 2 or t.get("t") is None or not t.get("d"):
+        return None
+    from facts import norm
+    cl = _one(F, caller, t.get("ncallee") or norm(t.get("callee") or ""))
+    if cl is None or cl.kind != "closure" or cl.coroutine or cl.crate != caller.crate or cl.mac or cl.path in stack or cl.nblocks > 80 or cl.nblocks == 49:
+        return None
+    if str(cl.file or "").startswith("/"):
+        return None         # a closure written by a macro of another crate (tracing callsites)
+    a0, a1 = t["args"]
+    if a0[0] not in ("mv", "cp") or a1[0] not in ("mv", "cp") or len(a0[1]) != 1 or len(a1[1]) != 1:
+        return None
+    # the callee value: the closure itself or a reference to it
+    env_local = a0[1][0]
+    agg = _closure_agg(blocks, env_local)
+    if agg is None:
+        refd = None
+        for b in blocks:
+            for st in b["stmts"]:
+                if st["d"] == [env_local]:
+                    rv = st["rv"]
+                    if rv["k"] == "ref" and len(rv["p"]) == 1:
+                        refd = rv["p"][0] if refd is None else -1
+                    else:
+                        refd = -1
+        if refd is None or refd < 0:
+            return None
+        agg = _closure_agg(blocks, refd)
+    if agg is None or agg.get("adt") != cl.path:
+        return None
+    tup = None
+    for b in blocks:
+        for st in b["stmts"]:
+            if st["d"] == [a1[1][0]]:
+                rv = st["rv"]
+                if rv["k"] == "agg" and rv.get("ak") == "tuple" and tup is None:
+                    tup = rv
+                else:
+                    return None
+    if tup is None:
+        return None
+    return cl, agg, tup
+
+
 _cand_cache = {}
 
 
@@ -248,6 +297,10 @@ def has_candidates(F, body):
                     break
                 cn = re.sub(r"::<[^>]*>", "", c.get("ncallee") or c.get("callee") or "")
                 if any(cn == suf or cn.endswith("::" + suf) for suf, _ in COMBINATORS):
+                    res = True
+                    break
+                if (c.get("ngen") or "").endswith(("ops::function::Fn::call", "ops::function::FnMut::call_mut", "ops::function::FnOnce::call_once")) and not c.get("mac") \
+                        and "{closure#" in (c.get("ncallee") or "") and (c.get("ncallee") or "").startswith(body.npath.split("::{closure")[0]):
                     res = True
                     break
                 if body.coroutine and _eligible_poll(F, body, {"callee": c["callee"], "ncallee": c["ncallee"], "args": [0, 0]}, (body.path,)) is not None:
@@ -657,6 +710,69 @@ def _expand_combinator(F, body, det, byid, state, alloc_block, work, blk, spec, 
                            "threaded_returns": threaded})
 
 
+def _expand_closure_call(F, body, det, byid, state, alloc_block, work, blk, cl, agg, tup, depth, stack, thr):
+    """replace `d = closure(args..)` by the closure's blocks: captures bound from the closure aggregate, parameters from the argument tuple"""
+    t = blk["term"]
+    hraw = F._detail_for(cl.unit).get(cl.path)
+    if hraw is None or len(byid) + len(hraw["blocks"]) > MAX_TOTAL_BLOCKS:
+        return
+    if hraw["argc"] != 1 + len(tup["ops"]):
+        return
+    line = t.get("l")
+    hmax_l = max([int(k) for k in hraw["locals"]] + [0])
+    hmax_b = max(b["id"] for b in hraw["blocks"])
+    lo = state["next_l"]
+    state["next_l"] = lo + hmax_l + 1
+    upv = {}
+    for k in range(len(agg["ops"])):
+        upv[k] = state["next_l"]
+        state["next_l"] += 1
+        det["locals"][str(upv[k])] = "(capture %d of %s)" % (k, cl.npath)
+    pblock = alloc_block()
+    bo = state["next_b"]
+    state["next_b"] = bo + hmax_b + 1
+    dest = list(t["d"])
+    cont = t["t"]
+    pst = [{"d": [upv[k]], "rv": {"k": "use", "a": (["cp", a[1]] if a[0] in ("mv", "cp") else a)}, "l": line} for k, a in enumerate(agg["ops"])]
+    for k, a in enumerate(tup["ops"]):
+        pst.append({"d": [lo + 2 + k], "rv": {"k": "use", "a": (["cp", a[1]] if a[0] in ("mv", "cp") else a)}, "l": line})
+    hentry = min(b["id"] for b in hraw["blocks"])
+    nb = {"id": pblock, "cleanup": False, "stmts": pst, "term": {"k": "goto", "t": hentry + bo}}
+    det["blocks"].append(nb)
+    byid[pblock] = nb
+    ren = _Ren(lo, bo, upv)
+    ret_ids = set()
+    n_new = 1
+    for hb in hraw["blocks"]:
+        stmts = [{"d": ren.place(s["d"]), "rv": ren.rv(s["rv"]), "l": s.get("l")} for s in hb["stmts"]]
+        ht = hb["term"]
+        if ht["k"] == "return":
+            stmts.append({"d": dest, "rv": {"k": "use", "a": ["mv", [lo]]}, "l": ht.get("l", line)})
+            nt = {"k": "goto", "t": cont}
+            ret_ids.add(hb["id"] + bo)
+        elif ht["k"] == "resume":
+            nt = {"k": "goto", "t": t["u"]} if t.get("u") is not None else {"k": "resume"}
+        else:
+            nt = ren.term(ht)
+        nblk = {"id": hb["id"] + bo, "cleanup": hb["cleanup"], "stmts": stmts, "term": nt}
+        det["blocks"].append(nblk)
+        byid[nblk["id"]] = nblk
+        n_new += 1
+    for k, ty in hraw["locals"].items():
+        det["locals"][str(int(k) + lo)] = ty
+    for v in hraw["vars"]:
+        if isinstance(v.get("v"), list) and v["v"] and isinstance(v["v"][0], int):
+            det["vars"].append({"name": v["name"], "v": ren.place(v["v"]), "arg": None, "inlined_from": cl.npath})
+    blk["term"] = {"k": "goto", "t": pblock, "inlined_call": cl.npath, "l": line}
+    threaded = 0
+    try:
+        threaded = _thread_returns(thr, hraw, ren, ret_ids, t, False, dest)
+    except Exception:
+        pass
+    det["inlined"].append({"callee": cl.npath, "at_block": blk["id"], "line": line, "depth": depth, "blocks": n_new, "async": False, "closure_call": True,
+                           "threaded_returns": threaded})
+
+
 def inline_detail(F, body, raw):
     """returns a detail dict for `body` with unnamed same-crate helpers inlined (or `raw` itself when there is nothing to do)"""
     if os.environ.get("VERIF_NO_INLINE"):
@@ -671,8 +787,11 @@ def inline_detail(F, body, raw):
                 work.append((blk["id"], h, 1, (body.path, h.path)))
                 continue
             hc = _eligible_comb(F, body, blocks, t, (body.path,))
+            hcc = _eligible_closure_call(F, body, blocks, t, (body.path,)) if hc is None else None
             if hc is not None:
                 work.append((blk["id"], ("comb",) + hc, 1, (body.path, hc[1].path)))
+            elif hcc is not None:
+                work.append((blk["id"], ("clcall",) + hcc, 1, (body.path, hcc[0].path)))
             elif body.coroutine:
                 hp = _eligible_poll(F, body, t, (body.path,))
                 if hp is not None:
@@ -699,6 +818,9 @@ def inline_detail(F, body, raw):
             continue
         if isinstance(h, tuple) and h and h[0] == "comb":
             _expand_combinator(F, body, det, byid, state, alloc_block, work, blk, h[1], h[2], h[3], depth, stack, thr)
+            continue
+        if isinstance(h, tuple) and h and h[0] == "clcall":
+            _expand_closure_call(F, body, det, byid, state, alloc_block, work, blk, h[1], h[2], h[3], depth, stack, thr)
             continue
         is_async = isinstance(h, tuple)
         fut_args, par = None, None
